@@ -1760,6 +1760,21 @@ pub fn verif_dijkstra_cmp(a_cost: f64, a_id: u64, b_cost: f64, b_id: u64) -> i8 
     a.cmp(&b) as i8
 }
 
+/// Verification hook: a schedule point inside the adjacency read-modify-write window
+/// (between reading an edge list and writing it back). The installed callback receives
+/// the list key; `None` (the default) does nothing.
+#[cfg(feature = "neumann_verif")]
+pub static VERIF_RMW_WINDOW: parking_lot::RwLock<Option<Arc<dyn Fn(&str) + Send + Sync>>> =
+    parking_lot::RwLock::new(None);
+
+#[cfg(feature = "neumann_verif")]
+fn verif_rmw_window(key: &str) {
+    let hook = VERIF_RMW_WINDOW.read().clone();
+    if let Some(hook) = hook {
+        hook(key);
+    }
+}
+
 /// Type alias for the `BTreeMap` index structure.
 type PropertyIndex = BTreeMap<OrderedPropertyValue, Vec<u64>>;
 
@@ -3389,6 +3404,8 @@ impl GraphEngine {
     fn add_edge_to_list(&self, key: String, edge_id: u64) -> Result<()> {
         let mut tensor = self.store.get(&key).unwrap_or_else(|_| TensorData::new());
         let mut edges = Self::extract_edge_ids(&tensor);
+        #[cfg(feature = "neumann_verif")]
+        verif_rmw_window(&key);
         if !edges.contains(&edge_id) {
             edges.push(edge_id);
         }
@@ -6455,6 +6472,8 @@ impl GraphEngine {
 
     fn remove_edge_from_list(&self, key: &str, edge_id: u64) -> Result<()> {
         if let Ok(mut tensor) = self.store.get(key) {
+            #[cfg(feature = "neumann_verif")]
+            verif_rmw_window(key);
             // Remove from new Pointers format
             if let Some(TensorValue::Pointers(ptrs)) = tensor.get("_edges") {
                 let id_str = edge_id.to_string();
